@@ -89,7 +89,10 @@ def run(ctx, intensify=False):
         hangs += o["hangs"]
     res.suites.append({"name": "K-graph", "cases": cases, "observations": starts, "disagreements": dis, "inconclusive": 0,
                        "distribution": {"start_nodes": starts, "chains_rejected_by_checker_in_shared_job_systems(D2)": rej_shared,
-                                        "non_terminating(D13)": hangs}})
+                                        "non_terminating(D13)": hangs,
+                                        "graphs_meeting_hypotheses_of_code_chain_accepted": sum(o.get("hyp_met", 0) for o in kouts),
+                                        "graphs_not_meeting_them_shared_job": sum(o.get("hyp_not_met_shared", 0) for o in kouts),
+                                        "graphs_not_meeting_them_other": sum(o.get("hyp_not_met_other", 0) for o in kouts)}})
     # --- K-calc: the from-scratch reference itself is the Lean model
     tot = syscases.merge(ctx.pmap(syscases.run_shard, [(ctx.seed * 1000 + 900 + i, ctx.n(3, 30), [], GENKW, True) for i in range(ctx.nproc)]))
     res.suites.append({"name": "K-calc", "cases": tot["cases"], "observations": tot["observations"],
